@@ -110,7 +110,7 @@ def program(case):
         w['retry'] = {'count': 1, 'delay': 1}
     w['publish'] = {'res': '<% task().result %>'}
     w['publish-on-error'] = {'res_e': '<% task().result %>'}
-    w['on-complete'] = ['e']
+    w['on-success'] = ['e']
     wf = {'input': ['items', 'items2', 'c'],
           'tasks': {'s': {'action': 'verif.act', 'input': {'t': 's'},
                           'on-success': ['w']},
@@ -201,7 +201,24 @@ def run_case(case):
                  'scheduler': case['scheduler'],
                  'uuid_seed': case['uuid_seed']}
             mon = WithItems(n, case['conc'], case['retry'])
-            run = ec.execute(c, extra_monitors=[mon])
+            rerun_state = {}
+
+            def rerun_phase(w, rerun_state=rerun_state):
+                # failed items are re-executed (reset off) and succeed now:
+                # the result must still be in item order although the new
+                # child executions were created last
+                t = [t for t in w.rec.rows['task'].values()
+                     if t['name'] == 'w']
+                root = w.root()
+                if not t or t[0]['state'] != 'ERROR' or root is None or \
+                        root['state'] != 'ERROR' or case['retry']:
+                    return False
+                w.outcome_rules[:] = [{'t': 'w', 'i': i,
+                                       'outcome': ['ok', 'it-%d' % i]}
+                                      for i in range(n)]
+                rerun_state['h'] = w.op_rerun(t[0]['id'], reset=False)
+                return True
+            run = ec.execute(c, extra_monitors=[mon], phases=[rerun_phase])
             res['executions'] += 1
             ec.merge_counts(res['events'], run.events)
             ec.merge_counts(res['monitor_evaluations'], run.mon_evals)
@@ -235,6 +252,8 @@ def run_case(case):
             elif any(o == 'err' for o in outs.values()):
                 want_state = 'ERROR'
             else:
+                want_state = 'SUCCESS'
+            if rerun_state.get('h'):
                 want_state = 'SUCCESS'
             if want_state and t['state'] != want_state:
                 viol('wrong-final-state',
